@@ -705,9 +705,16 @@ def l7(model: Model, rep: Report):
                 taken.append(p)
             elif c != FALSE:
                 raise AnalysisError(f"IDeclarativeCircuit.add: dispatch condition not decidable for a {kind}: {show(c)}")
-        ok = len(taken) == 1 and taken[0].exit == "return" and taken[0].value is not None and taken[0].value[0] == "call" \
-            and isinstance(taken[0].value[1], tuple) and taken[0].value[1][0] == "attr" and taken[0].value[1][1] == s and taken[0].value[1][2] in want[kind]
-        rep.check(ok, "C02.L7", f"IDeclarativeCircuit.add[{kind}]", f.loc, found=[f"{p.exit} {show(p.value) if p.value else ''}" for p in taken], required="self." + "/".join(want[kind]) + "(...)",
+        tv = None
+        if len(taken) == 1 and taken[0].value is not None:
+            # the handler may be picked from a table by this same test: with the kind known, ``getattr(self, <row>[0])(..)`` is a plain method call
+            tv = subst(taken[0].value, mp)
+            if tv[0] == "call" and isinstance(tv[1], tuple) and tv[1][0] == "call" and tv[1][1] in ("getattr", ("global", "getattr")) and len(tv[1][2]) == 2 \
+                    and tv[1][2][1][0] == "const" and isinstance(tv[1][2][1][1], str):
+                tv = ("call", ("attr", tv[1][2][0], tv[1][2][1][1])) + tv[2:]
+        ok = len(taken) == 1 and taken[0].exit == "return" and tv is not None and tv[0] == "call" \
+            and isinstance(tv[1], tuple) and tv[1][0] == "attr" and tv[1][1] == s and tv[1][2] in want[kind]
+        rep.check(ok, "C02.L7", f"IDeclarativeCircuit.add[{kind}]", f.loc, found=[f"{p.exit} {show(tv if tv is not None else p.value) if p.value else ''}" for p in taken], required="self." + "/".join(want[kind]) + "(...)",
                   what=f"a {kind} handed to add() is not routed to its adding path (a sub-circuit inserted without the copy is shared with its source and keeps its old registry)",
                   detail=f"dispatch:{kind}")
     g = I.resolve("add_declarative_circuit")
